@@ -289,6 +289,30 @@ def fam_dotted(tier, rng):
 FAMILIES.append(fam_dotted)
 
 
+def fam_bothfail(tier, rng):
+    """both operands of an operator fail, with different errors: the constant is rejected for the error that evaluating the
+    expression at run time raises - the one of the LEFT operand (also one level down, and as the run-time expression itself)"""
+    out = []
+    fails = {"div0": lambda: bin_("/", num(1), num(0)), "ovf": lambda: bin_("+", num(32767), num(1)), "mod0": lambda: bin_("mod", num(7), num(0)),
+             "mul": lambda: bin_("*", num(300), num(300)), "neg": lambda: bin_("-", num(-32768), num(1))}
+    for ka, fa in fails.items():
+        for kb, fb in fails.items():
+            if ka == kb:
+                continue
+            for op in ("+", "*", "-", "<", "and", "/"):
+                for deep in (False, True):
+                    l = par(bin_("+", num(1), par(fa()))) if deep else par(fa())
+                    e = bin_(op, l, par(fb()))
+                    b = B()
+                    out.append({"fam": "bothfail:const/%s/%s" % (ka, kb), "prog": prog([b.print(lit("$", "a")), b.const("C", "", e), b.print(cref("C"))])})
+                    b = B()
+                    out.append({"fam": "bothfail:runtime/%s/%s" % (ka, kb), "prog": prog([b.print(lit("$", "a")), b.print(par(e))])})
+    return out
+
+
+FAMILIES.append(fam_bothfail)
+
+
 def cases(tier, seed):
     rng = random.Random(seed)
     out = []
